@@ -414,6 +414,23 @@ structure UrlParts where
   port     : Str       -- url.Port()
   hostname : Str       -- url.Hostname()
 
+/-- what `url.Parse` returned without error (`*url.URL`), as far as getWSHostPort looks at it -/
+structure Url where
+  abs      : Bool      -- url.IsAbs()
+  scheme   : Str       -- url.Scheme
+  port     : Str       -- url.Port()
+  hostname : Str       -- url.Hostname()
+
+/-- `url.Parse` as an environment function: its answer read as the model's `UrlParts` -/
+def UrlParts.ofParse : Option Url → UrlParts
+  | none => { parsed := false, abs := false, scheme := [], port := [], hostname := [] }
+  | some u => { parsed := true, abs := u.abs, scheme := u.scheme, port := u.port, hostname := u.hostname }
+
+/-- `network.ServerIdentity` as far as getWSHostPort reads it (field names as in Go) -/
+structure SI where
+  Address : Str
+  URL     : Str
+
 def http : Str := [104, 116, 116, 112]
 def https : Str := [104, 116, 116, 112, 115]
 
